@@ -113,7 +113,7 @@ func TestConcurrentModification(t *testing.T) {
 	rec := ev.New(t, prop, "file-changes-while-hashed", "rapid: 2-8 files with unique content in up to 3 directories; the hasher passed to Scan appends to a chosen victim file at the moment its first bytes are hashed; the victim may be a problem or carry its old/new digest, every other file must be reported with exactly its own digest in snapshot and cache; non-trivial: the victim became problematic and other files exist")
 	base := t.TempDir()
 	n := 0
-	ev.Check(t, rec, 150, 5000, func(rt *rapid.T) {
+	ev.Check(t, rec, 400, 5000, func(rt *rapid.T) {
 		c := &ConcCase{Files: map[string]int{}}
 		dirs := []string{"", "d1/", "d2/", "d1/sub/"}
 		for k := rapid.IntRange(2, 8).Draw(rt, "files"); k > 0; k-- {
